@@ -124,27 +124,54 @@ def crc24 (d : Bytes) : Nat := (d.foldl crc24Byte crc24Init) % 0x1000000
 
 def bufSize : Nat := 100
 
+/-- look for '\n' among the first `fuel` bytes: `(bytes before it, bytes after it)` -/
+def scanNL : Nat → Bytes → Option (Bytes × Bytes)
+  | 0, _ => none
+  | _, [] => none
+  | n+1, b :: r =>
+    if b == 10 then some ([], r)
+    else match scanNL n r with
+      | some (l, r') => some (b :: l, r')
+      | none => none
+
+theorem scanNL_lt (n : Nat) (s l r : Bytes) (h : scanNL n s = some (l, r)) : r.length < s.length := by
+  induction n generalizing s l with
+  | zero => simp [scanNL] at h
+  | succ n ih =>
+    cases s with
+    | nil => simp [scanNL] at h
+    | cons b t =>
+      rw [scanNL] at h
+      split at h
+      · injection h with h; injection h with h1 h2; subst h2; simp
+      · split at h
+        · rename_i l' r' heq
+          injection h with h; injection h with h1 h2; subst h2
+          have := ih t l' heq
+          simp only [List.length_cons]; omega
+        · cases h
+
+/-- drop one trailing '\r' -/
+def stripCR (l : Bytes) : Bytes := if l.getLast? == some 13 then l.dropLast else l
+
 /-- One `ReadLine` on a non-empty remaining input: `(line, isPrefix, rest)`. -/
 def readLine1 (s : Bytes) : Bytes × Bool × Bytes :=
-  let win := s.take bufSize
-  match win.findIdx? (· == 10) with
-  | some i =>
-    let line := s.take i
-    let line := if line.getLast? == some 13 then line.dropLast else line
-    (line, false, s.drop (i + 1))
+  match scanNL bufSize s with
+  | some (l, r) => (stripCR l, false, r)
   | none =>
     if s.length ≥ bufSize then
-      if win.getLast? == some 13 then (s.take (bufSize - 1), true, s.drop (bufSize - 1))
-      else (win, true, s.drop bufSize)
+      if (s.take bufSize).getLast? == some 13 then (s.take (bufSize - 1), true, s.drop (bufSize - 1))
+      else (s.take bufSize, true, s.drop bufSize)
     else (s, false, [])
 
 theorem readLine1_lt (s : Bytes) (h : s ≠ []) : (readLine1 s).2.2.length < s.length := by
   have hl : 0 < s.length := List.length_pos_iff.mpr h
   unfold readLine1
-  simp only [bufSize]
   split
-  · simp only [List.length_drop]; omega
-  · by_cases h1 : s.length ≥ 100
+  · rename_i l r heq
+    exact scanNL_lt _ _ _ _ heq
+  · simp only [bufSize]
+    by_cases h1 : s.length ≥ 100
     · by_cases h2 : ((List.take 100 s).getLast? == some 13) = true
       · simp only [h1, h2, ↓reduceIte, List.length_drop]; omega
       · simp only [h1, h2, ↓reduceIte, Bool.false_eq_true, List.length_drop]; omega
